@@ -263,6 +263,41 @@ void run_exec(const ExecPlan &pl) {
                     sg.push_back({nm((Wide<K>) c.get_first_x()), sn, sd, (long long) icpt});
                 }
                 o.raw("segs", jarr2(sg)).num("ret", (long long) ret);
+                // Projection for key magnitudes TLC's 32-bit integers cannot handle: per segment, the largest distance
+                // between the reported line (exact slope dy/dx of the canonical segment, integer intercept as reported) and
+                // one of the segment's own points, as r2 = floor(2 * |line(x) - y|) and whether 2 * |line(x) - y| is
+                // exactly r2.  Whether that is within epsilon + 1/2 is decided by TLC (r2 < 2 eps + 1, or = and exact).
+                if constexpr (std::is_integral_v<K>) {
+                    std::vector<std::vector<long long>> res2;
+                    size_t si = 0;
+                    bool usable = true;
+                    for (size_t jj = i; jj < j && usable; ++jj) {
+                        auto &pts = ord[jj]->pts;
+                        size_t pi = 0;
+                        while (pi < pts.size()) {
+                            if (si >= css->size()) { usable = false; break; }
+                            const CS &c = (*css)[si++];
+                            auto &rect = Access::rectangle(c);
+                            size_t pe = pi + 1;
+                            while (pe < pts.size() && pts[pe].acc) ++pe;          // the segment's points: up to the next refused one
+                            __int128 dx, dy;
+                            long long icpt = (long long) c.get_floating_point_segment(c.get_first_x()).second;
+                            if (pe - pi == 1) { dx = 1; dy = 0; }
+                            else { dx = (__int128) rect[3].x - (__int128) rect[1].x; dy = (__int128) rect[3].y - (__int128) rect[1].y; }
+                            __int128 best = -1; bool best_exact = true;
+                            for (size_t q = pi; q < pe; ++q) {
+                                __int128 num = dy * ((__int128) pts[q].x - (__int128) c.get_first_x()) + ((__int128) icpt - (__int128) pts[q].y) * dx;
+                                if (num < 0) num = -num;
+                                __int128 r2 = 2 * num / dx;
+                                bool ex = (2 * num) % dx == 0;
+                                if (r2 > best || (r2 == best && !ex)) { best = r2; best_exact = ex; }
+                            }
+                            res2.push_back({(long long) std::min<__int128>(best, 2000000000), best_exact ? 1 : 0, (long long) (pe - pi)});
+                            pi = pe;
+                        }
+                    }
+                    if (usable && si == css->size()) o.raw("res2", jarr2(res2));
+                }
             } else o.raw("segs", "[]").num("ret", -1);
             o.end();
             i = j;
@@ -329,13 +364,16 @@ void run_config(const Plan &p, int exhaustive_level) {
         });
     }
     // (2) structured random inputs
-    const std::vector<std::string> kinds = {"runs", "sawtooth", "collinear", "steps", "random", "seams", "runs_uniform"};
+    const std::vector<std::string> kinds = {"runs", "sawtooth", "collinear", "steps", "random", "seams", "runs_uniform", "convex", "concave", "curve_far_dense", "one_curve"};
     int reps = quick ? 1 : 4;
     for (int rep = 0; rep < reps; ++rep)
         for (auto &kind : kinds) {
+            bool curve = kind == "convex" || kind == "concave" || kind == "curve_far_dense" || kind == "one_curve";
             for (int where = 0; where < 6; ++where) {
-                size_t nmax = quick ? 300 : 3000;
-                size_t n = where >= 3 ? 20 + rng.below(nmax) : 1 + rng.below(rng.chance(1, 3) ? 12 : nmax);
+                // curves need enough keys for hulls of more than a hundred vertices inside one segment
+                size_t nmax = curve && Eps >= 16 ? std::max<size_t>(quick ? 300 : 3000, std::min<size_t>(12 * Eps, 4096)) : quick ? 300 : 3000;
+                if (curve && where >= 3 && where != 5) continue;
+                size_t n = kind == "one_curve" ? std::min<size_t>(3900, 5 * Eps + 12 + rng.below(4 * Eps + 8)) : curve ? nmax / 2 + rng.below(nmax / 2 + 1) : where >= 3 ? 20 + rng.below(nmax) : 1 + rng.below(rng.chance(1, 3) ? 12 : nmax);
                 ExecPlan pl{kind, n, where, 0, where < 3, {kind}, rng.next(), {}};
                 if (where == 1) pl.tags.push_back("at_lowest");
                 if (where == 2) pl.tags.push_back("ends_at_max-1");
